@@ -178,7 +178,13 @@ def main(prop):
 
 def pairs(ck, n):
     from collections import namedtuple
-    from gaftools.cli.sort import compare_gaf
+    try:
+        from gaftools.cli.sort import compare_gaf
+    except ImportError:
+        # the comparison function is an internal of the tool: when it is gone (e.g. replaced by a key function) the ordering
+        # is judged on whole files only
+        ck.count("compare_gaf-absent")
+        return
     A = namedtuple("Alignment", ["offset", "BO", "NO", "start", "inv", "sn"])
     rng = ck.rng
     cases = []
